@@ -206,6 +206,27 @@ func init() {
 			doc := mk(1 + r.intn(4))
 			e.emit("rvc %s", hs([]byte(doc)))
 		}
+		// long strings: an invalid byte somewhere, and a valid multi-byte character (or an invalid
+		// fragment) straddling every offset near the powers of two and their multiples up to 8 KiB, so
+		// that an implementation converting in fixed-size chunks or windows is exercised at its seams
+		for _, seam := range []int{16, 32, 64, 128, 256, 512, 1024, 2048, 3072, 4096, 8192} {
+			for _, ch := range []string{"é", "€", "😀", "\xff", "\xe2\x82", "\xf0\x9f\x98", "\xed\xa0\x80"} {
+				for back := 0; back <= len(ch); back++ {
+					for _, bad := range []string{"\xff", ""} {
+						pad := seam - back - len(bad)
+						if pad < 0 {
+							continue
+						}
+						str := bad + strings.Repeat("a", pad) + ch + "tail"
+						e.emit("compat %s", hs([]byte(str)))
+						if back == 1 {
+							e.emit("compatb %s %s %d", hs([]byte(str)), hs([]byte("buf")), r.intn(12))
+							e.emit("rvc %s", hs([]byte(`{"`+str+`":["`+str+`"]}`)))
+						}
+					}
+				}
+			}
+		}
 		docs := 4000
 		if thorough {
 			docs = 100000
